@@ -151,6 +151,7 @@ func (e *Engine) NewHint(f solver.Hint, nbOutputs int, inputs ...frontend.Variab
 			e.st.HintSubst++
 			if e.scope == nil {
 				e.scope = trimToRepo(captureStack(2))
+				e.scopePending = true
 			}
 		}
 	}
